@@ -45,8 +45,20 @@ TabOf(tr) == NormAliases(TabAt(tr, 0, 1))
 AliasGroup(d, i) == LET def == IF d[i].alias # 0 THEN d[i].alias ELSE i IN
                     {def} \cup {j \in 1..Len(d) : d[j].alias = def}
 Closure(d, S) == UNION {AliasGroup(d, i) : i \in S}
-SetScalars(d, S, t, v) == LET C == Closure(d, S) IN
+SetScalarsRaw(d, S, t, v) == LET C == Closure(d, S) IN
   [i \in 1..Len(d) |-> IF i \in C THEN [d[i] EXCEPT !.t = t, !.v = v] ELSE d[i]]
+\* members of a Set that became equal collapse into one (a Set holds distinct members)
+RECURSIVE DedupMembers(_)
+DedupMembers(kids) == IF Len(kids) = 0 THEN <<>> ELSE
+  LET rest == DedupMembers(SubSeq(kids, 1, Len(kids) - 1)) x == kids[Len(kids)] IN
+  IF \E j \in 1..Len(rest) : rest[j].t = x.t /\ rest[j].v = x.v THEN rest ELSE Append(rest, x)
+RECURSIVE DedupSetsT(_)
+DedupSetsT(tr) ==
+  IF tr.k = "set" THEN [tr EXCEPT !.kids = DedupMembers(tr.kids)]
+  ELSE [tr EXCEPT !.kids = [j \in 1..Len(tr.kids) |-> DedupSetsT(tr.kids[j])]]
+HasSet(d) == \E i \in 1..Len(d) : d[i].k = "set"
+SetScalars(d, S, t, v) == LET raw == SetScalarsRaw(d, S, t, v) IN
+  IF HasSet(d) THEN TabOf(DedupSetsT(TreeOf(raw, Root))) ELSE raw
 
 (* ---- delete ---- *)
 RECURSIVE TreeWithout(_, _, _)
@@ -131,14 +143,16 @@ SeqToSet(s) == {s[j] : j \in 1..Len(s)}
 EStep(s, e) ==
   LET d == s.doc r == Sel(d, e.segs) ids == FlatIds(r.res) IN
   IF e.op = "set_must" THEN
-    (IF r.err # "" THEN [doc |-> d, out |-> "yperr"]
+    (IF r.info THEN [doc |-> d, out |-> "skip"]          \* the selection itself is an open corner: no expectation
+     ELSE IF r.err # "" THEN [doc |-> d, out |-> "yperr"]
      ELSE IF Len(r.res) = 0 THEN [doc |-> d, out |-> "unmatched"]
-     ELSE IF r.info \/ ~AllScalars(d, ids) \/ (\E j \in 1..Len(r.res) : IsName(r.res[j])) THEN [doc |-> d, out |-> "skip"]
+     ELSE IF ~AllScalars(d, ids) \/ (\E j \in 1..Len(r.res) : IsName(r.res[j])) \/ (\E j \in 1..Len(r.res) : IsVirt(r.res[j])) THEN [doc |-> d, out |-> "skip"]
      ELSE [doc |-> SetScalars(d, SeqToSet(ids), e.t, e.v), out |-> "ok"])
   ELSE IF e.op = "delete" THEN
-    (IF r.err # "" THEN [doc |-> d, out |-> "yperr"]
+    (IF r.info THEN [doc |-> d, out |-> "skip"]
+     ELSE IF r.err # "" THEN [doc |-> d, out |-> "yperr"]
      ELSE IF Len(r.res) = 0 THEN [doc |-> d, out |-> "ok"]
-     ELSE IF r.info \/ (\E j \in 1..Len(r.res) : IsName(r.res[j])) THEN [doc |-> d, out |-> "skip"]
+     ELSE IF (\E j \in 1..Len(r.res) : IsName(r.res[j])) THEN [doc |-> d, out |-> "skip"]
      ELSE IF Root \in SeqToSet(ids) THEN [doc |-> d, out |-> "nodoc"]
      ELSE [doc |-> DeleteNodes(d, SeqToSet(ids)), out |-> "ok"])
   ELSE IF e.op = "set_opt" THEN
